@@ -22,10 +22,17 @@ PARTIAL = ('proved (Properties/C08.v, all closed under the global context): C08_
            'invariant, hand-over of the centre after a \'right\' split and through the backward one-site step. Also the mixed-canonical norm / '
            'one-site / two-site / zero-site (rectangular bond matrix) energy identities, the call schedule for all L and step counts, the per-call QR bond bound; '
            'non-vacuity of both whole-run theorems on rational instances (L = 2 single-site, L = 3 two-site with an exact rational split oracle). '
-           'NOT proved: bond dimensions along a whole run, splits with tol > 0, that floating-point Lanczos meets the conservation contract (measured), that the floating-point '
+           'LINK (C08_tdvp1_conserves_lapack, Proofs/Link*.v): the single-site whole-run theorem with the solver arguments instantiated by the concrete '
+           'Krylov-based solvers kexp_lanczos / kexp0_lanczos = _local_hamiltonian_step / _local_bond_step (expm_krylov of Model/Krylov.v over the row-major '
+           'flatten/unflatten bridge, site_dot = vdot): the only remaining hypotheses are LAPACK-level contracts on the calls actually issued (block QR; numpy.linalg.norm, '
+           'sound breakdown test, eigh_tridiagonal with U^T U = I, T U = U diag(w), (U U^T) e_0 = e_0, unimodular numpy.exp at the issued arguments), right-isometry of '
+           'orthonormalize and Hermiticity of the MPO (word-level, as in C04_heff_hermitian); self-adjointness of every one-site and zero-site effective operator and '
+           'non-vanishing of every start tensor are derived from the sweep invariant; per call: C08_kexp_from_krylov, C08_kexp0_from_krylov (these also cover the merged '
+           'two-site calls). The two-site whole-run instantiation (C08_tdvp2_conserves_lapack) is NOT done: statement kept as a comment in Properties/C08.v. '
+           'NOT proved: bond dimensions along a whole run, splits with tol > 0, that the FLOATING-POINT primitives (LAPACK QR / eigh_tridiagonal / norm / exp, hence the floating-point Lanczos) meet their exact contracts (drift measured), that the floating-point '
            'SVD split meets the exact-split contract (at tol = 0 this is what C03_merge_split_id and C12_block_svd_spec prove of the split model in exact arithmetic; '
            'here only its consequences, norm and energy drift, are measured), rounding drift (measured by prop()); '
-           'Hermiticity of H and imaginary dt enter only through the solver contract; H is an argument no model function returns or updates (bytes compared here)')
+           'in the abstract theorems Hermiticity of H and imaginary dt enter only through the solver contract, in the linked theorem through mpo_herm and the unimodular-exp contract; H is an argument no model function returns or updates (bytes compared here)')
 ASSUMPTIONS = SR.ASSUMPTIONS
 RULE = ('Hermitian MPOs (XXZ, Ising, Bose-Hubbard, Fermi-Hubbard, random Hermitian with and without charges), L in 1..5 (two-site: L >= 2), '
         'bond profiles, sectors, purely imaginary dt of several sizes, 1..3 steps, 1..6 Krylov iterations, repeated calls on the same state, '
